@@ -21,7 +21,7 @@ METHODS = ['emit', 'callback', 'disconnect', 'enter_room', 'leave_room',
 WRONG = [None, 0, '', [], {}, b'', 5.5, True]
 
 
-def build(is_async, with_cb=True):
+def build(is_async, with_cb=True, coro_cb=False):
     """One host with a local client on '/' (room 'r', one outstanding
     callback) and on the sentinel namespace '/s'."""
     log = []
@@ -58,6 +58,13 @@ def build(is_async, with_cb=True):
         fired.append(a)
         if w.script.get('cb_raises'):
             raise RuntimeError('scripted callback fault')
+    if coro_cb:
+        # a coroutine callback that awaited something which was cancelled
+        async def cb(*a):     # noqa: F811
+            fired.append(a)
+            if w.script.get('cb_cancelled'):
+                import asyncio
+                raise asyncio.CancelledError()
     # one callback outstanding, issued by this host for its own client
     # (with_cb=False: the client has never been the target of one)
     if with_cb:
@@ -199,7 +206,8 @@ def run_sequence(is_async, items, fault=None, with_cb=True):
     for the local client's sid on '/' and its outstanding callback id.
     Returns list of (key, msg)."""
     v = []
-    cl, w, t, sid, sids, fired, log, cbid = build(is_async, with_cb)
+    cl, w, t, sid, sids, fired, log, cbid = build(
+        is_async, with_cb, coro_cb=(fault == 'cb_cancelled'))
     if cbid is None:
         cbid = 1
     mgr = w.sio.manager
@@ -208,6 +216,8 @@ def run_sequence(is_async, items, fault=None, with_cb=True):
             w.script['disc_raises'] = True
         if fault == 'cb_raises':
             w.script['cb_raises'] = True
+        if fault == 'cb_cancelled':
+            w.script['cb_cancelled'] = True
         if fault == 'send_raises':
             real = w.sio._send_eio_packet
             state = {'n': 0}
@@ -342,6 +352,7 @@ def fault_cases():
         ('disc_raises', [('pickle', d)]),
         ('send_raises', [('pickle', e)]),
         ('cb_raises', [('pickle', c)]),
+        ('cb_cancelled', [('pickle', c)]),
         ('listen_raises@0', [('pickle', e)]),
         ('listen_raises@1', [('pickle', e)]),
         ('listen_raises@1', [('pickle', e), ('pickle', d)]),
@@ -363,7 +374,8 @@ def job(args):
         cases = [([a, b], None) for a, b in
                  list(itertools.product(rep, repeat=2))[lo:hi]]
     else:
-        cases = [(its, fault) for fault, its in fault_cases()]
+        cases = [(its, fault) for fault, its in fault_cases()
+                 if is_async or fault != 'cb_cancelled']
     for its, fault in cases:
         variants = [True]
         if fault is None and all(
